@@ -76,6 +76,88 @@ func producersOf(s []int) []producer {
 			add("MatMulEye", []*ref.T{g(s, 91), ref.Eye(s[0])}, ref.Node{Op: ref.Op{K: "MatMul"}, In: []int{0, 1}})
 		}
 	}
+	// constructors, alone and followed by the operations that copy / re-wrap their data
+	if n >= 1 {
+		one := ref.CopyShape(s)
+		one[0] = 1
+		last := []ref.Range{{From: s[0] - 1, To: s[0]}}
+		for ci, ct := range []struct {
+			name string
+			val  float64
+		}{{"Full", 2.5}, {"Zeros", 0}, {"Ones", 1}} {
+			addC := func(name string, leaves []*ref.T, ctor []string, nodes ...ref.Node) {
+				p := &ref.Program{Leaves: leaves, Tracked: make([]bool, len(leaves)), Nodes: nodes, Ctor: ctor}
+				if vals, ok := p.Forward(); ok && ref.SameShape(vals[len(vals)-1].Shape, s) {
+					out = append(out, producer{name, p})
+				}
+			}
+			salt := uint64(300 + 10*ci)
+			addC(ct.name, []*ref.T{ref.FullOf(s, ct.val)}, []string{ct.name})
+			addC(ct.name+">Patch", []*ref.T{ref.FullOf(s, ct.val), g(one, salt)}, []string{ct.name, ""}, ref.Node{Op: ref.Op{K: "Patch", Index: last}, In: []int{0, 1}})
+			addC("Patch<"+ct.name, []*ref.T{g(s, salt+1), ref.FullOf(one, ct.val)}, []string{"", ct.name}, ref.Node{Op: ref.Op{K: "Patch", Index: last}, In: []int{0, 1}})
+			addC(ct.name+">Patch>Slice", []*ref.T{ref.FullOf(append([]int{s[0] + 1}, s[1:]...), ct.val), g(one, salt+2)}, []string{ct.name, ""},
+				ref.Node{Op: ref.Op{K: "Patch", Index: []ref.Range{{From: 1, To: 2}}}, In: []int{0, 1}},
+				ref.Node{Op: ref.Op{K: "Slice", Index: []ref.Range{{From: 1, To: s[0] + 1}}}, In: []int{2}})
+			addC(ct.name+">Patch>Reshape", []*ref.T{ref.FullOf([]int{ref.Size(s)}, ct.val), g([]int{1}, salt+3)}, []string{ct.name, ""},
+				ref.Node{Op: ref.Op{K: "Patch", Index: []ref.Range{{From: 0, To: 1}}}, In: []int{0, 1}},
+				ref.Node{Op: ref.Op{K: "Reshape", Shape: s}, In: []int{2}})
+			addC(ct.name+">Broadcast", []*ref.T{ref.FullOf(s[1:], ct.val)}, []string{ct.name}, ref.Node{Op: ref.Op{K: "Broadcast", Shape: s}, In: []int{0}})
+			if s[0] >= 2 {
+				a, b := ref.CopyShape(s), ref.CopyShape(s)
+				a[0], b[0] = 1, s[0]-1
+				addC(ct.name+">Concat", []*ref.T{ref.FullOf(a, ct.val), g(b, salt+4)}, []string{ct.name, ""}, ref.Node{Op: ref.Op{K: "Concat", Dim: 0}, In: []int{0, 1}})
+			}
+			addC(ct.name+">Add", []*ref.T{ref.FullOf(s, ct.val), g(s, salt+5)}, []string{ct.name, ""}, ref.Node{Op: ref.Op{K: "Add"}, In: []int{0, 1}})
+		}
+	}
+	// chains: every producer so far followed by an operation that re-wraps its result
+	if n >= 1 {
+		base := append([]producer{}, out...)
+		one := ref.CopyShape(s)
+		one[0] = 1
+		for _, pr := range base {
+			if pr.name == "TensorOf" || len(pr.prog.Ctor) > 0 {
+				continue
+			}
+			ext := func(name string, extraLeaves []*ref.T, mk func(prev int, firstExtra int) []ref.Node) {
+				// leaves come first in tensor numbering: appending leaves shifts node ids
+				q := &ref.Program{}
+				L := len(pr.prog.Leaves)
+				q.Leaves = append(append([]*ref.T{}, pr.prog.Leaves...), extraLeaves...)
+				q.Tracked = make([]bool, len(q.Leaves))
+				shift := func(id int) int {
+					if id >= L {
+						return id + len(extraLeaves)
+					}
+					return id
+				}
+				for _, nd := range pr.prog.Nodes {
+					in := make([]int, len(nd.In))
+					for k, id := range nd.In {
+						in[k] = shift(id)
+					}
+					q.Nodes = append(q.Nodes, ref.Node{Op: nd.Op, In: in})
+				}
+				prev := q.NTensors() - 1
+				q.Nodes = append(q.Nodes, mk(prev, L)...)
+				if vals, ok := q.Forward(); ok && ref.SameShape(vals[len(vals)-1].Shape, s) {
+					out = append(out, producer{pr.name + ">" + name, q})
+				}
+			}
+			ext("Patch", []*ref.T{g(one, 401)}, func(prev, fe int) []ref.Node {
+				return []ref.Node{{Op: ref.Op{K: "Patch", Index: []ref.Range{{From: 0, To: 1}}}, In: []int{prev, fe}}}
+			})
+			ext("Reshape2", nil, func(prev, fe int) []ref.Node {
+				return []ref.Node{{Op: ref.Op{K: "Reshape", Shape: []int{ref.Size(s)}}, In: []int{prev}}, {Op: ref.Op{K: "Reshape", Shape: s}, In: []int{prev + 1}}}
+			})
+			ext("UnSqueeze>Squeeze", nil, func(prev, fe int) []ref.Node {
+				return []ref.Node{{Op: ref.Op{K: "UnSqueeze", Dim: 0}, In: []int{prev}}, {Op: ref.Op{K: "Squeeze", Dim: 0}, In: []int{prev + 1}}}
+			})
+			ext("Scale1", nil, func(prev, fe int) []ref.Node {
+				return []ref.Node{{Op: ref.Op{K: "Scale", F: 1}, In: []int{prev}}}
+			})
+		}
+	}
 	return out
 }
 
@@ -117,6 +199,7 @@ func composeCases(c *core.Ctx, prefix string, shapes [][]int, consumers func(s [
 					op := cons[oi]
 					in := []*ref.T{y}
 					rin := []tensor.Tensor{ry}
+					swap := false
 					if op.Arity() == 2 || op.K == "Concat" {
 						pv, pt := sibVal, sibling
 						if step >= len(cons) { // second pass: another partner, so a clobbered earlier result shows
@@ -132,7 +215,14 @@ func composeCases(c *core.Ctx, prefix string, shapes [][]int, consumers func(s [
 						}
 						in = append(in, pv)
 						rin = append(rin, pt)
+						// second pass: the produced tensor is the ARGUMENT, the partner the receiver
+						if step >= len(cons) && op.Arity() == 2 && op.K != "Patch" && op.K != "MatMul" && op.K != "Dot" {
+							in[0], in[1] = in[1], in[0]
+							rin[0], rin[1] = rin[1], rin[0]
+							swap = true
+						}
 					}
+					_ = swap
 					exp, ok := ref.Eval(op, in)
 					if !ok {
 						continue
